@@ -27,6 +27,32 @@ def handle : List String → String
     match applyOps defaultCats ops, natList? cps with
     | some t, some s => joinSp ((tokenize t s).map tokStr) ++ "\t-"
     | _, _ => "bad-op"
+  | "dyn" :: ws =>
+    -- `<ops> ; <n> ; <ops> ; <n> … | code points` : apply ops, pull n tokens, …, then pull everything
+    let (schedW, cps) := splitAt1 "|" ws
+    let segs := splitAll ";" schedW
+    let rec build : List (List String) → Option (List (List String × Nat))
+      | [] => some []
+      | [_] => none
+      | ops :: [n] :: more => do
+        let k ← n.toNat?
+        let r ← build more
+        pure ((ops, k) :: r)
+      | _ => none
+    match build segs, natList? cps with
+    | some sched, some s =>
+      -- run the schedule, threading the table through `applyOps`
+      let rec go (t : CatTable) (st : St) (p : Bool) (cs : List Nat) : List (List String × Nat) → Option (List Tok)
+        | [] => some (tokFrom t st p cs)
+        | (ops, n) :: more => do
+          let t' ← applyOps t ops
+          let r := pullN t' n st p cs
+          let rest ← go t' r.2.1 r.2.2.1 r.2.2.2 more
+          pure (r.1 ++ rest)
+      match go defaultCats .N false s sched with
+      | some toks => joinSp (toks.map tokStr) ++ "\t-"
+      | none => "bad-op"
+    | _, _ => "bad-op"
   | "code" :: ws =>
     -- whichCode of each listed character under the table
     let (ops, cps) := splitAt1 "|" ws
